@@ -82,6 +82,11 @@ CHECKS = {
             'Held on the executions produced: surviving routes, visible attributes, trimmed schema, retained '
             'types and by-name tables as the options select; malformed / unknown inputs reported with exit 1.',
             '4 C19'),
+    'C20': ('runtime monitoring: Api returned by the real specs_to_ir under random route whitelists compared with a '
+            'minimal and a maximal reference closure computed on the model, closure/registration invariants on '
+            'the filtered Api, and fresh-interpreter import of python_types generated from it',
+            'Held on the executions produced: minimal closure retained, nothing outside the maximal closure '
+            'retained, no dangling reference, filtered modules import.', '4 C20'),
 }
 
 PENDING = {}
